@@ -70,7 +70,8 @@ def utf8 (s : Str) : List Nat := s.flatMap utf8Enc
 
 def replChar : Char := Char.ofNat 0xFFFD
 
-def isCont (b : Nat) : Bool := 0x80 ≤ b && b < 0xC0
+/-- a UTF-8 continuation byte -/
+abbrev isCont (b : Nat) : Prop := 0x80 ≤ b ∧ b < 0xC0
 
 /-- `bytes.decode('utf-8', 'replace')` as CPython does it: an invalid start byte, or a lead byte
     with the longest valid run of continuation bytes after it, becomes one U+FFFD -/
@@ -89,7 +90,7 @@ def utf8Dec : List Nat → Str
       match r0 with
       | [] => [replChar]
       | b1 :: r1 =>
-        if !isCont b1 || (b0 == 0xE0 && b1 < 0xA0) || (b0 == 0xED && 0xA0 ≤ b1) then
+        if ¬ isCont b1 ∨ (b0 = 0xE0 ∧ b1 < 0xA0) ∨ (b0 = 0xED ∧ 0xA0 ≤ b1) then
           replChar :: utf8Dec (b1 :: r1)
         else
           match r1 with
@@ -102,13 +103,13 @@ def utf8Dec : List Nat → Str
       match r0 with
       | [] => [replChar]
       | b1 :: r1 =>
-        if !isCont b1 || (b0 == 0xF0 && b1 < 0x90) || (b0 == 0xF4 && 0x90 ≤ b1) then
+        if ¬ isCont b1 ∨ (b0 = 0xF0 ∧ b1 < 0x90) ∨ (b0 = 0xF4 ∧ 0x90 ≤ b1) then
           replChar :: utf8Dec (b1 :: r1)
         else
           match r1 with
           | [] => [replChar]
           | b2 :: r2 =>
-            if !isCont b2 then replChar :: utf8Dec (b2 :: r2)
+            if ¬ isCont b2 then replChar :: utf8Dec (b2 :: r2)
             else
               match r2 with
               | [] => [replChar]
@@ -174,19 +175,15 @@ def pySpace (c : Char) : Bool :=
 
 def strip (s : Str) : Str := ((s.dropWhile pySpace).reverse.dropWhile pySpace).reverse
 
-/-- `int(s)` for ASCII text -/
+/-- `int(s)` for ASCII text: optional sign, then digits -/
 def pyInt (s : Str) : Except Err Int :=
   if s.any (fun c => 128 ≤ c.toNat) then .error .outOfModel else
-  match strip s with
-  | '-' :: r => match digitsVal 0 false r with
-    | some n => .ok (-(n : Int))
-    | none => .error .valueError
-  | '+' :: r => match digitsVal 0 false r with
-    | some n => .ok n
-    | none => .error .valueError
-  | r => match digitsVal 0 false r with
-    | some n => .ok n
-    | none => .error .valueError
+  let t := strip s
+  let neg := t.head? == some '-'
+  let body := if neg || t.head? == some '+' then t.tail else t
+  match digitsVal 0 false body with
+  | some n => .ok (if neg then -(n : Int) else n)
+  | none => .error .valueError
 
 def digitChar (d : Nat) : Char := Char.ofNat (48 + d)
 
@@ -254,8 +251,22 @@ def bracketText (uri : Str) : Option Str :=
 
 /-- `urllib.parse.uses_params` -/
 def usesParams : List Str :=
-  ["", "ftp", "hdl", "prospero", "http", "imap", "https", "shttp", "rtsp", "rtsps", "rtspu", "sip",
-   "sips", "mms", "sftp", "tel"].map String.toList
+  [[],
+   ['f', 't', 'p'],
+   ['h', 'd', 'l'],
+   ['p', 'r', 'o', 's', 'p', 'e', 'r', 'o'],
+   ['h', 't', 't', 'p'],
+   ['i', 'm', 'a', 'p'],
+   ['h', 't', 't', 'p', 's'],
+   ['s', 'h', 't', 't', 'p'],
+   ['r', 't', 's', 'p'],
+   ['r', 't', 's', 'p', 's'],
+   ['r', 't', 's', 'p', 'u'],
+   ['s', 'i', 'p'],
+   ['s', 'i', 'p', 's'],
+   ['m', 'm', 's'],
+   ['s', 'f', 't', 'p'],
+   ['t', 'e', 'l']]
 
 /-- `_splitparams(path)` (called only when ';' occurs in `path`): cut `;params` off the last segment -/
 def splitParams (p : Str) : Str :=
@@ -426,15 +437,15 @@ def renderPath : Option Str → Str
   | some v => '/' :: quote v
 
 def renderOpt : UOpt → Str
-  | .heartbeat n => "heartbeat=".toList ++ toDec n
-  | .timeout n => "timeout=".toList ++ toDec n
+  | .heartbeat n => ['h', 'e', 'a', 'r', 't', 'b', 'e', 'a', 't', '='] ++ toDec n
+  | .timeout n => ['t', 'i', 'm', 'e', 'o', 'u', 't', '='] ++ toDec n
 
 def renderQuery : List UOpt → Str
   | [] => []
   | o :: os => '?' :: renderOpt o ++ os.flatMap (fun o => '&' :: renderOpt o)
 
 def render (c : Components) : Str :=
-  (if c.tls then "amqps://".toList else "amqp://".toList) ++ renderUserinfo c.user c.pass ++
+  (if c.tls then ['a', 'm', 'q', 'p', 's', ':', '/', '/'] else ['a', 'm', 'q', 'p', ':', '/', '/']) ++ renderUserinfo c.user c.pass ++
     renderHost c.host ++ renderPort c.port ++ renderPath c.vhost ++ renderQuery c.opts
 
 end Amqp.Uri
